@@ -22,7 +22,11 @@ use routee_compass_core::model::network::vertex_id::VertexId;
 use routee_compass_core::model::termination::termination_model::verif_clock;
 use routee_compass_core::model::unit::as_f64::AsF64;
 use routee_compass_core::model::unit::*;
+use routee_compass_core::model::frontier::frontier_model::FrontierModel;
+use routee_compass_core::model::frontier::frontier_model_error::FrontierModelError;
 use std::collections::{HashMap, HashSet};
+use std::sync::atomic::{AtomicBool, AtomicU64, Ordering};
+use std::sync::Arc;
 
 #[derive(Clone, Debug, PartialEq)]
 pub enum Sim {
@@ -611,6 +615,95 @@ pub fn corpus() -> Vec<KCase> {
     let mut b = base_case(vec![(0, 1, 1.0), (1, 2, 1.0), (3, 2, 1.0), (4, 2, 1.0), (5, 2, 1.0)], 6, 0, 2);
     b.term = Term::Size(2);
     v.push(kcase(b, "reverse-search-limit-witness"));
+    v.extend(yen_corpus());
+    v
+}
+
+fn ycase(base: SCase, k: usize, label: &'static str) -> KCase {
+    let mut c = kcase(base, label);
+    c.yen = true;
+    c.k_default = k;
+    c
+}
+
+/// hand-written witnesses of the defects of `yens_algorithm::run` (each reproduces on the real code)
+pub fn yen_corpus() -> Vec<KCase> {
+    let mut v = vec![];
+    // k <= 1: the shortest route, whatever its length
+    v.push(ycase(base_case(vec![(0, 1, 1.0)], 2, 0, 1), 1, "yen-one-edge-k1"));
+    v.push(ycase(base_case(vec![(0, 1, 1.0), (1, 2, 1.0)], 3, 0, 2), 0, "yen-two-edge-k0"));
+    v.push(ycase(diamond(), 1, "yen-diamond-k1"));
+    // one-edge shortest route, k = 2: `0..len - 2` wraps; AcceptAll pushes a copy of the route every turn
+    v.push(ycase(base_case(vec![(0, 1, 1.0), (0, 2, 1.0), (2, 1, 1.0)], 3, 0, 1), 2, "yen-one-edge-k2"));
+    // the same with a threshold: nothing is ever pushed, the loop just spins
+    let mut c = ycase(base_case(vec![(0, 1, 1.0), (0, 2, 1.0), (2, 1, 1.0)], 3, 0, 1), 2, "yen-one-edge-k2-threshold");
+    c.sim = Some(Sim::EdgeId(0.5));
+    v.push(c);
+    // two-edge shortest route (the diamond!), k = 2: the for loop is empty, the while loop never progresses
+    v.push(ycase(diamond(), 2, "yen-two-edge-k2"));
+    // origin = destination, k = 2: the empty route underflows too; first turn fails with "root path is empty"
+    v.push(ycase(base_case(vec![(0, 1, 1.0), (1, 0, 1.0)], 2, 0, 0), 2, "yen-origin-is-destination-k2"));
+    // three-edge route, no alternative: the spur search's "no path" becomes the query's error
+    v.push(ycase(base_case(vec![(0, 1, 1.0), (1, 2, 1.0), (2, 3, 1.0)], 4, 0, 3), 2, "yen-spur-failure"));
+    // three-edge route with one alternative: two routes, but the spur part restarts from the initial state
+    v.push(ycase(base_case(vec![(0, 1, 1.0), (1, 2, 1.0), (2, 3, 1.0), (1, 4, 2.0), (4, 3, 2.0)], 5, 0, 3), 2, "yen-state-not-accumulated"));
+    // four-edge route, alternatives at both spur vertices, the second one dearer: the best candidate is pushed twice
+    v.push(ycase(
+        base_case(vec![(0, 1, 1.0), (1, 2, 1.0), (2, 3, 1.0), (3, 4, 1.0), (1, 5, 2.0), (5, 4, 2.0), (2, 6, 3.0), (6, 4, 3.0)], 7, 0, 4),
+        2,
+        "yen-duplicate-route",
+    ));
+    // … the second one cheaper: three distinct routes for k = 2
+    v.push(ycase(
+        base_case(vec![(0, 1, 1.0), (1, 2, 1.0), (2, 3, 1.0), (3, 4, 1.0), (1, 5, 3.0), (5, 4, 3.0), (2, 6, 1.5), (6, 4, 1.5)], 7, 0, 4),
+        2,
+        "yen-more-than-k",
+    ));
+    // the spur path returns through the origin: 0 -> 1 -> 2 -> 3, alternative from 1: 1 -> 0 -> 4 -> 3
+    v.push(ycase(
+        base_case(vec![(0, 1, 1.0), (1, 2, 1.0), (2, 3, 1.0), (1, 0, 1.0), (0, 4, 2.0), (4, 3, 2.0)], 5, 0, 3),
+        2,
+        "yen-loop-in-route",
+    ));
+    // a candidate is kept when it is dissimilar to ANY accepted route: k = 3, threshold 0.45;
+    // S = [0,1,2], A = [0,3,4,5], then [0,3,8,9] ranks 0.5 against A and 0.29 against S
+    let mut c = ycase(
+        base_case(
+            vec![
+                (0, 1, 1.0), (1, 2, 1.0), (2, 9, 1.0), // S: e0 e1 e2
+                (1, 3, 1.0), (3, 4, 1.0), (4, 9, 1.0), // A: e0 e3 e4 e5
+                (1, 5, 2.0), (5, 9, 2.0),              // e6 e7
+                (3, 6, 0.9), (6, 9, 0.9),              // e8 e9
+            ],
+            10,
+            0,
+            9,
+        ),
+        3,
+        "yen-similar-routes",
+    );
+    c.sim = Some(Sim::EdgeId(0.45));
+    v.push(c);
+    // the junction turn root -> spur is never shown to the frontier model: (e0, e3) restricted
+    let mut b = base_case(vec![(0, 1, 1.0), (1, 2, 1.0), (2, 3, 1.0), (1, 4, 2.0), (4, 3, 2.0)], 5, 0, 3);
+    b.frontier = vec![Fr::TurnRestriction(vec![(0, 3)])];
+    let mut c = ycase(b, 2, "yen-restricted-turn");
+    c.bf_ok = false;
+    v.push(c);
+    // no candidate is dissimilar enough: spur searches repeat for ever
+    let mut c = ycase(base_case(vec![(0, 1, 1.0), (1, 2, 1.0), (2, 3, 1.0), (1, 4, 2.0), (4, 3, 2.0)], 5, 0, 3), 2, "yen-no-dissimilar-candidate");
+    c.sim = Some(Sim::EdgeId(0.1));
+    v.push(c);
+    // edge-oriented, A* underlying
+    let mut c = ycase(two_by_three_grid(), 2, "yen-grid-edge-oriented");
+    c.base.edge_oriented = true;
+    c.base.source = 0;
+    c.base.target = Some(13);
+    v.push(c);
+    let mut c = ycase(two_by_three_grid(), 3, "yen-grid-astar");
+    c.base.astar = Some(Some(1.0));
+    c.bf_ok = false;
+    v.push(c);
     v
 }
 
@@ -835,7 +928,326 @@ pub fn case_at(seed: u64, quick: bool, k: usize, corpus: &[KCase]) -> KCase {
         3 | 4 => Some(KTerm::MaxIt(rng.below(8) as u64)),
         _ => Some(KTerm::Factor(rng.below(4) as u64)),
     };
-    KCase { base, yen: false, k_default, query_k, sim, term, style, bf_ok, label: "" }
+    let yen = rng.chance(3, 10);
+    KCase { base, yen, k_default, query_k, sim, term, style, bf_ok, label: "" }
+}
+
+// ---------------------------------------------------------------------------------------------
+// Yen's algorithm: child processes only
+
+/// number of `valid_frontier` calls a Yen run may make before the child declares it divergent
+/// (a returning run on these graph sizes needs a few thousand)
+const YEN_FRONTIER_BUDGET: u64 = 300_000;
+const YEN_TIMEOUT_MS: u64 = 2000;
+const YEN_AS_LIMIT_BYTES: u64 = 1 << 30;
+
+/// wraps the real frontier model: after `budget` calls every call fails, which ends a `while` loop
+/// that keeps repeating the same spur searches (the trace recorded so far stays available)
+struct BudgetFrontier {
+    inner: Arc<dyn FrontierModel>,
+    calls: AtomicU64,
+    budget: u64,
+    exhausted: Arc<AtomicBool>,
+}
+
+impl FrontierModel for BudgetFrontier {
+    fn valid_frontier(
+        &self,
+        edge: &routee_compass_core::model::network::Edge,
+        state: &[routee_compass_core::model::traversal::state::state_variable::StateVar],
+        previous_edge: Option<&routee_compass_core::model::network::Edge>,
+        state_model: &routee_compass_core::model::state::state_model::StateModel,
+    ) -> Result<bool, FrontierModelError> {
+        if self.calls.fetch_add(1, Ordering::Relaxed) >= self.budget {
+            self.exhausted.store(true, Ordering::Relaxed);
+            return Err(FrontierModelError::FrontierModelError("verification budget exhausted".into()));
+        }
+        self.inner.valid_frontier(edge, state, previous_edge, state_model)
+    }
+}
+
+/// the plain underlying search on the query (in-process: it always returns)
+fn plain_run(kc: &KCase, b: &Built) -> (Exec, Vec<usize>) {
+    let mut pc = kc.base.clone();
+    pc.reverse = false;
+    let ex = exec(&pc, b);
+    let mut sched = ex.scheds.first().cloned().unwrap_or_default();
+    if let (Outcome::Ok(_), Some(t), false) = (&ex.outcome, inner_target(&pc), ex.scheds.is_empty()) {
+        if t != inner_source(&pc) {
+            sched.push(t);
+        }
+    }
+    (ex, sched)
+}
+
+fn plain_route_len(kc: &KCase, ex: &Exec) -> Option<usize> {
+    match &ex.outcome {
+        Outcome::Ok(r) => r.routes.first().map(|rt| if kc.base.edge_oriented && rt.len() >= 2 { rt.len() - 2 } else { rt.len() }),
+        _ => None,
+    }
+}
+
+/// does the wrapper hand this query to the KSP algorithm at all?
+fn reaches_algorithm(c: &SCase) -> bool {
+    if !c.edge_oriented {
+        return true;
+    }
+    match c.target {
+        None => true,
+        Some(t) => c.source != t && c.edges[c.source].1 != c.edges[t].0,
+    }
+}
+
+/// CHILD: run Yen on case `k`, write the usual four files into `dir`
+pub fn child_main(args: &[String]) {
+    let seed: u64 = args[0].parse().expect("seed");
+    let quick = args[1] == "1";
+    let k: usize = args[2].parse().expect("index");
+    let dir = args[3].clone();
+    std::panic::set_hook(Box::new(|_| {}));
+    let tier = if quick { crate::ctx::Tier::Quick } else { crate::ctx::Tier::Thorough };
+    let mut ctx = Ctx::new(seed, tier, None, None);
+    let corpus = corpus();
+    let kc = case_at(seed, quick, k, &corpus);
+    run_yen_child(&mut ctx, k, &kc);
+    ctx.write(&dir, "C13", "").expect("write child outputs");
+}
+
+fn run_yen_child(ctx: &mut Ctx, idx: usize, kc: &KCase) {
+    let c = &kc.base;
+    let Ok(mut b) = build(c) else { return };
+    let (plain, _) = plain_run(kc, &b);
+    let exhausted = Arc::new(AtomicBool::new(false));
+    b.si.frontier_model = Arc::new(BudgetFrontier {
+        inner: b.si.frontier_model.clone(),
+        calls: AtomicU64::new(0),
+        budget: YEN_FRONTIER_BUDGET,
+        exhausted: exhausted.clone(),
+    });
+    let mut ex = exec_ksp(kc, &b, &kc.sim);
+    let diverged = exhausted.load(Ordering::Relaxed);
+    // every run but the last returned Ok (an error would have been propagated); so did the last one
+    // when the whole call returned Ok
+    let s = inner_source(c);
+    if let Some(t) = inner_target(c) {
+        let n = ex.scheds.len();
+        let ok = matches!(ex.outcome, Outcome::Ok(_));
+        for (i, sc) in ex.scheds.iter_mut().enumerate() {
+            if i + 1 < n || ok {
+                // a run whose source is the target popped nothing and ignores its schedule
+                if !(i == 0 && s == t) {
+                    sc.push(t);
+                }
+            }
+        }
+    }
+    let line = encode_k(kc, &b, &ex.scheds, &[]);
+    let out = if diverged { "diverges".to_string() } else { outcome_line(&ex.outcome) };
+    ctx.emit(idx, line, out.clone());
+    describe_k(ctx, kc);
+    ctx.count_n("underlying_searches", ex.runs as u64);
+    let k_eff = effective_k(kc);
+    let plain_len = plain_route_len(kc, &plain);
+    if diverged {
+        ctx.count("outcome_diverges_no_progress");
+        ctx.fail(
+            idx,
+            "yens/diverges-no-progress",
+            format!(
+                "Yen's algorithm does not return: {} underlying searches and {} frontier calls without reaching k = {:?} (shortest route has {:?} edges, similarity {:?})",
+                ex.runs, YEN_FRONTIER_BUDGET, k_eff, plain_len, kc.sim
+            ),
+        );
+        return;
+    }
+    match &ex.outcome {
+        Outcome::Ok(r) => {
+            ctx.count("outcome_ok");
+            ctx.count(&format!("routes_{}", r.routes.len().min(7)));
+            if let Some(k) = k_eff {
+                oracle_ok(ctx, idx, kc, &b, r, k, reopened(&ex.scheds));
+            }
+            if matches!(&plain.outcome, Outcome::Err(pk) if pk == "nopath") && !r.routes.is_empty() {
+                ctx.fail(idx, "yens/route-to-unreachable", "the plain search finds no path but Yen returned routes".into());
+            }
+        }
+        Outcome::Err(k) => {
+            ctx.count(&format!("outcome_err_{}", k.split(' ').next().unwrap_or("")));
+            if k.starts_with("panic") && !k.contains("termination-frequency-zero") {
+                ctx.fail(idx, "yens/panic", k.clone());
+            }
+            if let (Outcome::Ok(_), Some(_), true) = (&plain.outcome, k_eff, inner_target(c).is_some() && reaches_algorithm(c)) {
+                let kind = k.split(' ').next().unwrap_or("");
+                if ex.runs >= 2 {
+                    ctx.fail(
+                        idx,
+                        &format!("yens/spur-failure-propagated-{}", kind),
+                        format!("the plain search answers the query (route of {:?} edges) but Yen returned error '{}' from spur search #{}", plain_len, k, ex.runs - 1),
+                    );
+                } else {
+                    ctx.fail(
+                        idx,
+                        &format!("yens/error-without-spur-search-{}", kind),
+                        format!("the plain search answers the query (route of {:?} edges) but Yen returned error '{}' before any spur search", plain_len, k),
+                    );
+                }
+            }
+        }
+    }
+}
+
+struct Pending {
+    idx: usize,
+    kc: KCase,
+    dir: String,
+    child: std::process::Child,
+    started: std::time::Instant,
+}
+
+fn spawn_child(seed: u64, quick: bool, idx: usize, dir: &str) -> std::io::Result<std::process::Child> {
+    use std::os::unix::process::CommandExt;
+    let exe = std::env::current_exe()?;
+    let mut cmd = std::process::Command::new(exe);
+    cmd.arg("C13-child").arg(seed.to_string()).arg(if quick { "1" } else { "0" }).arg(idx.to_string()).arg(dir);
+    cmd.stdin(std::process::Stdio::null()).stdout(std::process::Stdio::null()).stderr(std::process::Stdio::null());
+    unsafe {
+        cmd.pre_exec(|| {
+            let lim = libc::rlimit { rlim_cur: YEN_AS_LIMIT_BYTES, rlim_max: YEN_AS_LIMIT_BYTES };
+            if libc::setrlimit(libc::RLIMIT_AS, &lim) != 0 {
+                return Err(std::io::Error::last_os_error());
+            }
+            Ok(())
+        });
+    }
+    cmd.spawn()
+}
+
+fn rss_kb(pid: u32) -> Option<u64> {
+    let s = std::fs::read_to_string(format!("/proc/{}/status", pid)).ok()?;
+    s.lines().find(|l| l.starts_with("VmRSS:")).and_then(|l| l.split_whitespace().nth(1)).and_then(|x| x.parse().ok())
+}
+
+/// PARENT: the child's files are merged into the run; a child that had to be killed is a `diverges` line
+fn finish_child(ctx: &mut Ctx, p: Pending, status: Option<std::process::ExitStatus>, rss_at_kill: Option<u64>) {
+    let read = |f: &str| std::fs::read_to_string(format!("{}/{}", p.dir, f)).unwrap_or_default();
+    let cases = read("cases.txt");
+    let impls = read("impl.txt");
+    let returned = status.map_or(false, |s| s.success()) && !cases.trim().is_empty() && !impls.trim().is_empty();
+    if returned {
+        let case = cases.lines().next().unwrap().splitn(2, ' ').nth(1).unwrap_or("").to_string();
+        let out = impls.lines().next().unwrap().splitn(2, ' ').nth(1).unwrap_or("").to_string();
+        if out.starts_with("ok ") && out.contains(" routes ") {
+            let n: usize = out.split(" routes ").nth(1).and_then(|r| r.split(' ').next()).and_then(|x| x.parse().ok()).unwrap_or(0);
+            if n >= 2 {
+                ctx.nontrivial(&out);
+            }
+        }
+        ctx.emit(p.idx, case, out);
+        for l in read("oracle.txt").lines() {
+            let mut parts = l.splitn(3, ' ');
+            let _ = parts.next();
+            let key = parts.next().unwrap_or("yens/unknown");
+            ctx.fail(p.idx, key, parts.next().unwrap_or("").to_string());
+        }
+        if let Ok(v) = serde_json::from_str::<serde_json::Value>(&read("stats.json")) {
+            if let Some(d) = v["distribution"].as_object() {
+                for (k, n) in d {
+                    ctx.count_n(k, n.as_u64().unwrap_or(0));
+                }
+            }
+        }
+    } else {
+        // killed (timeout), out of address space (abort), or build refused
+        let kc = &p.kc;
+        let Ok(b) = build(&kc.base) else {
+            ctx.count("build_refused");
+            let _ = std::fs::remove_dir_all(&p.dir);
+            return;
+        };
+        let (plain, sched0) = plain_run(kc, &b);
+        let line = encode_k(kc, &b, &[sched0], &[]);
+        ctx.emit(p.idx, line, "diverges".into());
+        describe_k(ctx, kc);
+        let len = plain_route_len(kc, &plain);
+        let timed_out = status.is_none();
+        let how = if timed_out {
+            format!("killed after {} ms (resident set {} kB)", YEN_TIMEOUT_MS, rss_at_kill.unwrap_or(0))
+        } else {
+            format!("child ended with {:?} under the {} MiB address-space limit", status, YEN_AS_LIMIT_BYTES >> 20)
+        };
+        let key = if !timed_out {
+            ctx.count("outcome_child_crashed");
+            "yens/out-of-memory"
+        } else {
+            match len {
+                Some(1) => {
+                    ctx.count("outcome_diverges_one_edge_route");
+                    "yens/diverges-one-edge-route"
+                }
+                Some(2) => {
+                    ctx.count("outcome_diverges_two_edge_route");
+                    "yens/diverges-two-edge-route"
+                }
+                _ => {
+                    ctx.count("outcome_diverges_other");
+                    "yens/diverges-timeout"
+                }
+            }
+        };
+        ctx.fail(p.idx, key, format!("Yen's algorithm did not return: {}; shortest route has {:?} edges, k = {:?}, similarity {:?}", how, len, effective_k(kc), kc.sim));
+    }
+    let _ = std::fs::remove_dir_all(&p.dir);
+}
+
+fn run_yen_batch(ctx: &mut Ctx, items: Vec<(usize, KCase)>) {
+    let base = std::env::temp_dir().join(format!("cvh_c13_{}", std::process::id()));
+    let _ = std::fs::create_dir_all(&base);
+    let max_par = 12;
+    let mut queue: std::collections::VecDeque<(usize, KCase)> = items.into();
+    let mut running: Vec<Pending> = vec![];
+    let quick = ctx.quick();
+    let seed = ctx.seed;
+    while !queue.is_empty() || !running.is_empty() {
+        while running.len() < max_par {
+            let Some((idx, kc)) = queue.pop_front() else { break };
+            let dir = base.join(idx.to_string()).to_string_lossy().to_string();
+            match spawn_child(seed, quick, idx, &dir) {
+                Ok(child) => running.push(Pending { idx, kc, dir, child, started: std::time::Instant::now() }),
+                Err(e) => ctx.fail(idx, "harness/spawn-failed", e.to_string()),
+            }
+        }
+        let mut still = vec![];
+        let mut progressed = false;
+        for mut p in running.drain(..) {
+            match p.child.try_wait() {
+                Ok(Some(st)) => {
+                    progressed = true;
+                    finish_child(ctx, p, Some(st), None);
+                }
+                Ok(None) => {
+                    if p.started.elapsed().as_millis() as u64 > YEN_TIMEOUT_MS {
+                        let rss = rss_kb(p.child.id());
+                        let _ = p.child.kill();
+                        let _ = p.child.wait();
+                        progressed = true;
+                        finish_child(ctx, p, None, rss);
+                    } else {
+                        still.push(p);
+                    }
+                }
+                Err(_) => {
+                    let _ = p.child.kill();
+                    let _ = p.child.wait();
+                    finish_child(ctx, p, None, None);
+                }
+            }
+        }
+        running = still;
+        if !progressed {
+            std::thread::sleep(std::time::Duration::from_millis(5));
+        }
+    }
+    let _ = std::fs::remove_dir_all(&base);
 }
 
 // ---------------------------------------------------------------------------------------------
@@ -951,16 +1363,34 @@ fn run_single_via(ctx: &mut Ctx, idx: usize, kc: &KCase) {
 }
 
 pub fn run(ctx: &mut Ctx) -> &'static str {
-    let n = ctx.n(700, 12000);
+    let n = ctx.n(900, 14000);
     let corpus = corpus();
     let total = corpus.len() + n;
+    let mut yen_items: Vec<(usize, KCase)> = vec![];
+    // children that are predicted to spin until killed cost two seconds each: run only some of them
+    let mut spin_allowance = ctx.n(10, 60);
     for k in 0..total {
         let Some(idx) = ctx.begin() else { continue };
         let kc = case_at(ctx.seed, ctx.quick(), k, &corpus);
         if kc.yen {
-            continue;
+            if kc.label.is_empty() && ctx.only.is_none() {
+                if let Ok(b) = build(&kc.base) {
+                    let (plain, _) = plain_run(&kc, &b);
+                    let short = matches!(plain_route_len(&kc, &plain), Some(l) if l <= 2);
+                    if short && effective_k(&kc).map_or(false, |k| k >= 2) && reaches_algorithm(&kc.base) && inner_target(&kc.base).is_some() {
+                        if spin_allowance == 0 {
+                            ctx.count("yen_short_route_case_not_run");
+                            continue;
+                        }
+                        spin_allowance -= 1;
+                    }
+                }
+            }
+            yen_items.push((idx, kc));
+        } else {
+            run_single_via(ctx, idx, &kc);
         }
-        run_single_via(ctx, idx, &kc);
     }
-    "diamond chains, grids, ladders, spur paths and random digraphs with tie-heavy / generic / metric lengths; k = 0..6 from configuration and from the query (also non-integer); AcceptAll (explicit and default), edge-id and distance-weighted cosine thresholds; Exact / MaxIteration / Factor; Dijkstra and A* underlying; vertex and edge orientation; turn delays, turn restrictions, other frontier models and termination limits; non-trivial = successful query returning at least two routes, distinct by full output"
+    run_yen_batch(ctx, yen_items);
+    "diamond chains, grids, ladders, spur paths and random digraphs with tie-heavy / generic / metric lengths; single-via and Yen (Yen only in child processes under a 1 GiB address-space limit and a 2 s timeout); k = 0..6 from configuration and from the query (also non-integer); AcceptAll (explicit and default), edge-id and distance-weighted cosine thresholds; Exact / MaxIteration / Factor; Dijkstra and A* underlying; vertex and edge orientation; turn delays, turn restrictions, other frontier models and termination limits; non-trivial = successful query returning at least two routes, distinct by full output"
 }
